@@ -438,11 +438,16 @@ func (n *Node) encodeFrame(fr frame.Frame) error {
 		_, isV2 := fr.(*frame.V2Frame)
 		msgRaw := mp.Write(fr.GetMessage(), isV2)
 
+		// the payload has just been regenerated from the decoded message and may differ
+		// from the one the frame was received with: the checksum must correspond to
+		// the payload that is actually sent
 		switch fr := fr.(type) {
 		case *frame.V1Frame:
 			fr.Message = msgRaw
+			fr.Checksum = fr.GenerateChecksum(mp.CRCExtra())
 		case *frame.V2Frame:
 			fr.Message = msgRaw
+			fr.Checksum = fr.GenerateChecksum(mp.CRCExtra())
 		}
 	}
 
